@@ -204,6 +204,9 @@ def hit_rule(ctx: Ctx, rid: str = "R09.hit") -> None:
                                              f"B:P0._read_block(decoded_address={D})[1]")
         r.check(ok, f"{key}|hit", f.loc(), f"{key}: the recorded hit flag is `{vals}`; it must be the cache lookup's verdict for the accessed address "
                 "(`_read_block(..)[1]`, or `cache.read_block(..) is not None` before the block is refilled)")
+    # the hit decision inside the set (every valid way is looked at)
+    from .c03 import block_index_rule
+    block_index_rule(ctx, r)
     r.floor(13)
 
 
@@ -238,6 +241,11 @@ def run(ctx: Ctx) -> None:
     r.floor(3)
 
     once_rule(ctx)
+    # five-stage mode counts every executed load / store once: MEM performs the instruction's memory access exactly once,
+    # exactly when it holds an instruction (no shortcut for rd = x0 or the like); the single stage does the same through behavior()
+    from ..stagespec import datapath_rule
+    datapath_rule(ctx, "R09.mux", fields_only={"MemoryAccessStage": {"memory_read_data", "once:memory_access"}},
+                  desc="MEM performs memory_access exactly once under the stage guard and latches what it returns")
     from .c10 import perset_rule
     perset_rule(ctx, "R09.perset")
     from ..siblingrule import sibling_rule
